@@ -12,14 +12,12 @@ import (
 )
 
 func isTopDir(f *File) bool {
-	// TODO: once we check the f.Flags:
-	// if !f.FileMode().IsDir() {
-	//    // non-directories can get the top_dir flag set,
-	//    // but it must be ignored (only for protocol reasons).
-	//   return false
-	// }
-	// return (f.Flags & TOP_DIR) != 0
-	return f.Name == "."
+	if !f.FileMode().IsDir() {
+		// non-directories can get the top_dir flag set,
+		// but it must be ignored (only for protocol reasons).
+		return false
+	}
+	return f.TopDir
 }
 
 func (rt *Transfer) deleteFiles(fileList []*File) error {
@@ -36,13 +34,14 @@ func (rt *Transfer) deleteFiles(fileList []*File) error {
 		// Other rsync implementations generate a local file list and compare it
 		// with the remote file list, we re-implement the path→name mapping part
 		// of file list generation here. We could change it for consistency.
-		err := fs.WalkDir(rt.DestRoot.FS(), ".", func(path string, info fs.DirEntry, err error) error {
+		top := f.Name
+		err := fs.WalkDir(rt.DestRoot.FS(), top, func(path string, info fs.DirEntry, err error) error {
 			if err != nil {
 				return err
 			}
 			rt.Logger.Printf("WalkDir(%q)", path)
 			if findInFileList(fileList, path) {
-				if info.IsDir() && path != "." && !rt.Opts.Recurse {
+				if info.IsDir() && path != top && !rt.Opts.Recurse {
 					// --dirs without --recursive: the contents of this
 					// directory were not transferred, so leave them alone.
 					return fs.SkipDir
@@ -75,7 +74,7 @@ func (rt *Transfer) deleteFiles(fileList []*File) error {
 		})
 		if err != nil {
 			if os.IsNotExist(err) {
-				return nil // destination does not exist, nothing to do
+				continue // destination does not exist, nothing to do
 			}
 			return err
 		}
